@@ -181,17 +181,29 @@ def run(ctx):
                want == got,
                "insert sets %s |= %s ; check tests %s & %s" % (show(nocast(I1)), show(nocast(V1)),
                                                               show(andn[2]), show(andn[3])))
-    # the two loops cover the same words
-    def loops(f, cz):
-        out = []
-        for n in f.body.walk():
-            if n.k == "ForStmt":
-                out.append(tuple(repr(nocast(cz(x))) for x in n.c[:4] if x is not None and x.k != "NullStmt"))
-        return out
-    li, lc = loops(ins, Canon(ins)), loops(chk, Canon(chk))
-    ctx.ob("R11.symmetry", "loop-extent|%s:block_insert/check" % BF, P.where(chk.body),
-           "insert and check iterate over the same words", li == lc and len(li) == 1,
-           "insert %s / check %s" % (li, lc))
+    # the two functions touch the same words: all eight of the 32-byte block (skeleton accesses; the
+    # loop form does not matter)
+    from ..rules.skeleton import Interp, Ptr, U, Budget, Stop
+    words = {}
+    for f_, kind in ((ins, "w"), (chk, "r")):
+        try:
+            it = Interp(P, f_, budget=100000, max_forks=1024)
+            outs = it.run([Ptr("block", 0, 4), 0x0123456789ABCDEF])
+            ws = set()
+            for out in outs:
+                for a in out[0]:
+                    if a.base == "block":
+                        ws |= set(range(a.lo // 4, (a.hi + 3) // 4))
+            words[f_.name] = ws
+        except (Budget, Stop) as ex:
+            words[f_.name] = None
+    if None in words.values():
+        ctx.inconclusive("R11.symmetry", "loop-extent|%s:block_insert/check" % BF, P.where(chk.body),
+                         "abstract execution of block_insert/block_check")
+    else:
+        ctx.ob("R11.symmetry", "loop-extent|%s:block_insert/check" % BF, P.where(chk.body),
+               "insert writes and check reads the same words: all 8 of the block", words[ins.name] == words[chk.name] == set(range(8)),
+               "insert %s / check %s" % (sorted(words[ins.name]), sorted(words[chk.name])))
 
     # ---- (6a) spec shape of the mask: 1 << ((SALT[i] * (uint32)hash) >> 27), word i, 8 words
     v = nocast(V1)
@@ -418,20 +430,40 @@ def run(ctx):
     ctx.ob("R6.copy", "read-delegates|%s:carquet_bloom_filter_read" % BF, P.where(rd.body),
            "read restores through from_data(data, data_size)", okrd)
 
-    # create geometry: rounding to whole blocks, min one block
-    cz = Canon(cr, inline=False)
-    pname = cr.params[0]["n"]
-    geo = rounding = False
-    for a in assignments(cr.body):
-        l = a.c[0].strip()
-        t = fold(nocast(cz(a.c[1])))
-        if l.k == "MemberExpr" and l.name == "num_blocks":
-            geo = t[0:2] == ("bin", "/") and t[3] == ("int", 32) and t[2][0] in ("local", "param")
-        if l.k == "DeclRefExpr" and l.name == pname and _is_roundup32(t):
-            rounding = True
-    ctx.ob("R5.spec", "size-rounding|%s:carquet_bloom_filter_create" % BF, P.where(cr.body),
-           "size is rounded up to whole 32-byte blocks and num_blocks = num_bytes / 32",
-           geo and rounding, "geo=%s rounding=%s" % (geo, rounding))
+    # create geometry, by abstract execution for every requested size 0..200: the data buffer is the
+    # size rounded up to whole 32-byte blocks (at least one), zero-initialised, and the recorded
+    # num_bytes / num_blocks describe exactly that buffer
+    from ..rules import sem
+    rec = sem.field_offsets(P, "carquet_bloom_filter")
+    badg = None
+    try:
+        for req in range(0, 201):
+            ev0 = []
+
+            def m_alloc(ev, a, it):
+                ev.append(("malloc", a[0]))
+                return sem.Ptr("filter" if len([e for e in ev if e[0] in ("malloc", "calloc")]) == 1 else "data", 0, 1)
+
+            def c_alloc(ev, a, it):
+                n_ = a[0] * a[1] if isinstance(a[0], int) and isinstance(a[1], int) else None
+                ev.append(("calloc", n_))
+                return sem.Ptr("filter" if len([e for e in ev if e[0] in ("malloc", "calloc")]) == 1 else "data", 0, 1)
+            ret, ev, heap = sem.run(P, cr, [req], heap0={}, hooks={"malloc": m_alloc, "calloc": c_alloc,
+                                                                "memset": lambda ev, a, it: ev.append(("memset", a[1], a[2])) or 0})
+            want = max(32, (req + 31) // 32 * 32)
+            allocs = [e for e in ev if e[0] in ("malloc", "calloc")]
+            data_sz = allocs[1][1] if len(allocs) > 1 else None
+            zeroed = (len(allocs) > 1 and allocs[1][0] == "calloc") or ("memset", 0, want) in ev
+            okg = (data_sz == want and zeroed and heap.get(("filter", rec["num_bytes"])) == want
+                   and heap.get(("filter", rec["num_blocks"])) == want // 32)
+            if not okg and badg is None:
+                badg = "create(%d): data buffer %s bytes (zeroed: %s), num_bytes %s, num_blocks %s; expected %d bytes / %d blocks" % (
+                    req, data_sz, zeroed, heap.get(("filter", rec["num_bytes"])), heap.get(("filter", rec["num_blocks"])), want, want // 32)
+        ctx.ob("R5.spec", "size-rounding|%s:carquet_bloom_filter_create" % BF, P.where(cr.body),
+               "for every requested size 0..200 the filter is a zeroed buffer of whole 32-byte blocks (>= 1) and "
+               "num_bytes / num_blocks describe it", badg is None, badg or "")
+    except sem.Inconclusive as ex:
+        ctx.inconclusive("R5.spec", "size-rounding|%s:carquet_bloom_filter_create" % BF, P.where(cr.body), "abstract execution", str(ex))
 
     mg = fns["carquet_bloom_filter_merge"]
     cz = Canon(mg)
